@@ -96,22 +96,19 @@ class DiffOperator(operator.Operator, abc.ABC):
 
     def derive0(self, sm, inplace=False):
         """apply operator (without order1 and order2 differential operators)"""
-        if not inplace:
-            sm = sm.copy()
+        sm = self.prepare(sm, inplace=inplace)
         return self._apply(sm)
 
     def derive1(self, sm, param, inplace=False):
         """apply 1st order differential operator w/r to parameter `param`"""
-        if not inplace:
-            sm = sm.copy()
+        sm = self.prepare(sm, inplace=inplace)
         sm_d1 = self._derive1(sm, param)
         sm_d1.arrays.update("equilibrium", 0)  # remove equilibrium
         return sm_d1
 
     def derive2(self, sm, params, inplace=False):
         """apply 2nd order differential operator w/r to parameters pair `params`"""
-        if not inplace:
-            sm = sm.copy()
+        sm = self.prepare(sm, inplace=inplace)
         sm_d2 = self._derive2(sm, Pair(params))
         sm_d2.arrays.update("equilibrium", 0)  # remove equilibrium
         return sm_d2
